@@ -426,41 +426,70 @@ fn int_type(input: &[u8]) -> LexResult<'_, IntType> {
     }
 }
 
+/// Make an error for an integer literal whose value does not fit the type given by its suffix
+fn literal_too_large<T>(input: &[u8]) -> LexResult<'_, T> {
+    Err(LexErrorContext(
+        input,
+        LexerErrorReason::IntegerLiteralTooLarge,
+    ))
+}
+
 /// Parse a decimal literal
 fn literal_decimal_int(input: &[u8]) -> LexResult<'_, Token> {
+    let start_input = input;
     let (input, value) = digits(input)?;
     let (input, int_type_opt) = opt(int_type)(input)?;
     let token = match int_type_opt {
         None => Token::LiteralInt(value),
-        Some(IntType::Unsigned32) => Token::LiteralIntUnsigned32(value),
+        Some(IntType::Unsigned32) => match u32::try_from(value) {
+            Ok(value) => Token::LiteralIntUnsigned32(u64::from(value)),
+            Err(_) => return literal_too_large(start_input),
+        },
         Some(IntType::Unsigned64) => Token::LiteralIntUnsigned64(value),
-        Some(IntType::Signed64) => Token::LiteralIntSigned64(value as i64),
+        Some(IntType::Signed64) => match i64::try_from(value) {
+            Ok(value) => Token::LiteralIntSigned64(value),
+            Err(_) => return literal_too_large(start_input),
+        },
     };
     Ok((input, token))
 }
 
 /// Parse a hexadecimal literal
 fn literal_hex_int(input: &[u8]) -> LexResult<'_, Token> {
+    let start_input = input;
     let (input, value) = digits_hex(input)?;
     let (input, int_type_opt) = opt(int_type)(input)?;
     let token = match int_type_opt {
         None => Token::LiteralInt(value),
-        Some(IntType::Unsigned32) => Token::LiteralIntUnsigned32(value),
+        Some(IntType::Unsigned32) => match u32::try_from(value) {
+            Ok(value) => Token::LiteralIntUnsigned32(u64::from(value)),
+            Err(_) => return literal_too_large(start_input),
+        },
         Some(IntType::Unsigned64) => Token::LiteralIntUnsigned64(value),
-        Some(IntType::Signed64) => Token::LiteralIntSigned64(value as i64),
+        Some(IntType::Signed64) => match i64::try_from(value) {
+            Ok(value) => Token::LiteralIntSigned64(value),
+            Err(_) => return literal_too_large(start_input),
+        },
     };
     Ok((input, token))
 }
 
 /// Parse an octal literal
 fn literal_octal_int(input: &[u8]) -> LexResult<'_, Token> {
+    let start_input = input;
     let (input, value) = digits_octal(input)?;
     let (input, int_type_opt) = opt(int_type)(input)?;
     let token = match int_type_opt {
         None => Token::LiteralInt(value),
-        Some(IntType::Unsigned32) => Token::LiteralIntUnsigned32(value),
+        Some(IntType::Unsigned32) => match u32::try_from(value) {
+            Ok(value) => Token::LiteralIntUnsigned32(u64::from(value)),
+            Err(_) => return literal_too_large(start_input),
+        },
         Some(IntType::Unsigned64) => Token::LiteralIntUnsigned64(value),
-        Some(IntType::Signed64) => Token::LiteralIntSigned64(value as i64),
+        Some(IntType::Signed64) => match i64::try_from(value) {
+            Ok(value) => Token::LiteralIntSigned64(value),
+            Err(_) => return literal_too_large(start_input),
+        },
     };
     Ok((input, token))
 }
